@@ -21,6 +21,7 @@ CANARIES = {
         ("encoder-drops-fixed", "stix2/base.py", "drop-bool-operand", ["_STIXBase.__init__", "drop operand 1", "_fixed_value"], "C01.defaulted-bookkeeping"),
         ("set-ordered-extension-properties", "stix2/base.py", "text", ["toplevel_extension_props = list(registered_toplevel_extension_props)", "toplevel_extension_props = list(registered_toplevel_extension_props.keys() | kwargs.keys())"], "C01.spec-order"),
         ("isdigit-guards-int", "stix2/serialization.py", "text", ["if search_key.isdecimal():", "if search_key.isdigit():"], "C01.pretty-sort-key"),
+        ("extension-inserted-after-construction", "stix2/custom.py", "text", ["            _cls_init(cls, self, kwargs)\n", "            _cls_init(cls, self, kwargs)\n            self._inner.setdefault('extensions', {})\n"], "C01.spec-order"),
     ],
     "C02": [
         ("required-lost", "stix2/v21/sdo.py", "drop-keyword", ["Identity", "drop required="], "C02.table"),
@@ -59,6 +60,7 @@ CANARIES = {
         ("insertion-order-first-hash", "stix2/base.py", "text", ["k = next(iter(sorted(hash_dict)), None)", "k = next(iter(hash_dict), None)"], "C06.constants"),
         ("id-none-taken-for-an-id", "stix2/v21/base.py", "text", ["if kwargs.get('id') is None:", "if 'id' not in kwargs:"], "C06.wiring"),
         ("tuples-hashed-as-text", "stix2/base.py", "text", ["elif isinstance(value, (list, tuple)):", "elif isinstance(value, list):"], "C06.wiring"),
+        ("extension-inserted-after-id", "stix2/custom.py", "text", ["            _cls_init(cls, self, kwargs)\n", "            _cls_init(cls, self, kwargs)\n            self._inner['extensions'] = {}\n"], "C06.wiring"),
     ],
     "C07": [
         ("path-prefix", "stix2/markings/granular_markings.py", "drop-bool-operand", ["get_markings", "inherited", "drop operand 1", "startswith"], "C07.query-siblings"),
